@@ -45,7 +45,10 @@ def main(argv):
         res.notes.append("facts: %s (%s)" % (info.get("key"), "cached" if info.get("cached") else "extracted in %ss" % info.get("extract_s")))
         ctx = Ctx(P, I, info, tier, seed)
         mod.run(ctx, res)
-    except RuntimeError as e:
+    except RecursionError as e:
+        traceback.print_exc(limit=12)
+        res.violation(pid + ".internal", pid + "/internal/RecursionError", "internal error in the checker (failing closed): %s" % e)
+    except facts._extract.ExtractionError as e:
         res.violation(pid + ".build", pid + "/build", "fact extraction failed: %s" % e)
     except Exception as e:  # fail closed on any internal error
         traceback.print_exc()
